@@ -32,6 +32,65 @@ fn main() -> ExitCode {
         }
     }
     let total = id as usize;
+    // quota modes: `quota_take <n> <limit> <sizes..>` and `quota_take_all <ignored n> <limit> <sizes..>`
+    if policy == "quota_take" || policy == "quota_take_all" {
+        let limit = sizes[0] as usize;
+        let mut builder = HardwareBuilder::new().max_processor_time(limit as f64 + 0.5);
+        let mut id = 0_u32;
+        for (region, size) in sizes[1..].iter().enumerate() {
+            for _ in 0..*size {
+                builder = builder.processor(
+                    ProcessorBuilder::new()
+                        .id(id)
+                        .memory_region(u32::try_from(region).expect("few regions"))
+                        .efficiency_class(EfficiencyClass::Performance),
+                );
+                id += 1;
+            }
+        }
+        let total = id as usize;
+        let hw = SystemHardware::fake(builder);
+        let limit = limit.max(1);
+        let mut bad = None;
+        if policy == "quota_take" {
+            let got = hw.processors().to_builder().enforce_resource_quota().take(NonZero::new(n).expect("n > 0"));
+            match got {
+                None if n <= limit && n <= total => bad = Some(format!("take({n}) returned nothing although the quota allows {limit} and {total} candidates exist")),
+                Some(set) if n > limit => bad = Some(format!("take({n}) returned {} processors although the quota allows only {limit}", set.len())),
+                Some(set) if set.len() != n => bad = Some(format!("take({n}) returned {} processors", set.len())),
+                _ => {}
+            }
+        } else {
+            for which in 0..5 {
+                let b = hw.processors().to_builder().enforce_resource_quota();
+                let b = match which {
+                    0 => b,
+                    1 => b.prefer_same_memory_region(),
+                    2 => b.same_memory_region(),
+                    3 => b.prefer_different_memory_regions(),
+                    _ => b.different_memory_regions(),
+                };
+                if let Some(set) = b.take_all() {
+                    if set.len() > limit {
+                        bad = Some(format!("take_all (policy #{which}) returned {} processors although the quota allows only {limit}", set.len()));
+                    }
+                    if which == 0 && set.len() != total.min(limit) {
+                        bad = Some(format!("take_all returned {} processors, expected min({total}, {limit})", set.len()));
+                    }
+                }
+            }
+        }
+        return match bad {
+            None => {
+                println!("{{\"ok\":true}}");
+                ExitCode::SUCCESS
+            }
+            Some(w) => {
+                eprintln!("C09 violated ({policy}, n {n}, limit {limit}, region sizes {:?}): {w}", &sizes[1..]);
+                ExitCode::from(1)
+            }
+        };
+    }
     let hw = SystemHardware::fake(builder);
 
     let mut worst = None;
